@@ -51,10 +51,12 @@ class Unknown(Exception):
 
 
 class Interp:
-    def __init__(self, fn, bits):
+    def __init__(self, fn, bits, prog=None, depth=0):
         self.fn = fn
         self.bits = bits      # carries: ('c6', src) ('c1', src), tie bit 'lt'
         self.results = []
+        self.prog = prog
+        self.depth = depth
 
     # ---------------------------------------------------------------- exprs
     def ev(self, e, st):
@@ -142,6 +144,9 @@ class Interp:
                 val = self.ev(v.value, st)
                 spec = self.spec(v.format_spec, st) if v.format_spec is not None else ""
                 parts.append(("fmt", val, spec))
+        return self.finish(parts)
+
+    def finish(self, parts):
         if len(parts) == 1 and parts[0][0] == "fmt" and isinstance(parts[0][1], F):
             val, spec = parts[0][1], parts[0][2]
             if spec in ("e", ".6e"):
@@ -151,11 +156,79 @@ class Interp:
             if isinstance(spec, tuple) and spec[0] == "fixed":
                 return ("fixed", val, spec[1])
             raise AnalysisError("C20 interpreter: float format spec %r" % (spec,))
+        parts = [p for p in parts if not (p[0] == "lit" and p[1] == "")]
         if all(p[0] == "lit" for p in parts):
             return "".join(p[1] for p in parts)
         if len(parts) == 2 and parts[0] == ("lit", "e") and parts[1][0] == "fmt" and isinstance(parts[1][1], int) and parts[1][2] in ("+03d", "+d", "+03", "+"):
             return ("suffix", parts[1][1])
         return ("concat", tuple(parts))
+
+    def spec_text(self, text, nested):
+        """format spec given as text with `{}` place-holders already replaced by the values in `nested`"""
+        import re
+        if "{" not in text:
+            return text
+        m = re.fullmatch(r"\.\{\}f", text)
+        if m and len(nested) == 1 and isinstance(nested[0], int) and not isinstance(nested[0], bool):
+            return ("fixed", nested[0])
+        raise AnalysisError("C20 interpreter: format spec %r" % text)
+
+    def str_format(self, fmt, args, kwargs):
+        import string
+        parts = []
+        auto = 0
+        def take(name):
+            nonlocal auto
+            if name == "":
+                v = args[auto] if auto < len(args) else None
+                if auto >= len(args):
+                    raise AnalysisError("C20 interpreter: str.format has too few arguments")
+                auto += 1
+                return v
+            if name.isdigit():
+                if auto:
+                    raise AnalysisError("C20 interpreter: mixed automatic / manual field numbering")
+                return args[int(name)]
+            if name in kwargs:
+                return kwargs[name]
+            raise AnalysisError("C20 interpreter: str.format field %r" % name)
+        for lit, field, spec, conv in string.Formatter().parse(fmt):
+            if lit:
+                parts.append(("lit", lit))
+            if field is None:
+                continue
+            if conv:
+                raise AnalysisError("C20 interpreter: conversion !%s" % conv)
+            val = take(field)
+            nested = []
+            spec = spec or ""
+            if "{" in spec:
+                names = [f for _, f, _, _ in string.Formatter().parse(spec) if f is not None]
+                nested = [take(n) for n in names]
+                import re
+                spec = re.sub(r"\{[^}]*\}", "{}", spec)
+            parts.append(("fmt", val, self.spec_text(spec, nested)))
+        return self.finish(parts)
+
+    def call_helper(self, fi, args, kwargs):
+        if self.depth > 3:
+            raise AnalysisError("C20 interpreter: helper nesting too deep")
+        params = list(fi.positional)
+        if len(args) > len(params) or fi.node.args.vararg or fi.node.args.kwarg:
+            raise AnalysisError("C20 interpreter: helper signature %s" % fi.qualname)
+        st = dict(zip(params, args))
+        for k, v in kwargs.items():
+            if k not in params or k in st:
+                raise AnalysisError("C20 interpreter: helper keyword %s" % k)
+            st[k] = v
+        if set(st) != set(params):
+            raise AnalysisError("C20 interpreter: helper %s called without all arguments" % fi.qualname)
+        sub = Interp(fi, self.bits, self.prog, self.depth + 1)
+        outs = [o for o in sub.run(fi.node.body, st)]
+        if len(outs) != 1 or "<return>" not in outs[0]:
+            raise AnalysisError("C20 interpreter: helper %s has %d feasible paths" % (fi.qualname, len(outs)))
+        self.helpers = getattr(self, "helpers", set()) | {fi.qualname} | getattr(sub, "helpers", set())
+        return outs[0]["<return>"]
 
     def spec(self, s, st):
         # ".{P}f" | "e" | ".1e" | "+03d"
@@ -190,12 +263,22 @@ class Interp:
             if f.id == "float" and len(args) == 1 and isinstance(args[0], tuple) and args[0][0] == "fixed":
                 # value re-read from its fixed-point print: magnitude may have carried into the next decade
                 return ("reread", args[0][1])
+            if f.id == "format" and len(args) == 2 and isinstance(args[1], str):
+                return self.finish([("fmt", args[0], self.spec_text(args[1], []))])
+            if f.id == "str" and len(args) == 1 and isinstance(args[0], (str, tuple)):
+                return args[0]
             if f.id == "len":
                 raise AnalysisError("C20 interpreter: len()")
+            if self.prog is not None and not e.keywords or self.prog is not None and all(k.arg for k in e.keywords):
+                fi = self.prog.func("%s.%s" % (self.fn.module.name, f.id))
+                if fi is not None:
+                    return self.call_helper(fi, args, {k.arg: self.ev(k.value, st) for k in e.keywords})
             raise AnalysisError("C20 interpreter: call %s" % norm(e))
         if isinstance(f, ast.Attribute):
             recv = self.ev(f.value, st)
             args = [self.ev(a, st) for a in e.args]
+            if f.attr == "format" and isinstance(recv, str):
+                return self.str_format(recv, args, {k.arg: self.ev(k.value, st) for k in e.keywords if k.arg})
             if f.attr == "split" and args == ["e"] and isinstance(recv, tuple) and recv[0] == "sci":
                 val, digits = recv[1], recv[2]
                 carry = self.bits[("c6" if digits == 6 else "c1", val.src)]
@@ -208,7 +291,13 @@ class Interp:
 
     def compare(self, e, st):
         if len(e.ops) != 1:
-            raise AnalysisError("C20 interpreter: chained comparison %s" % norm(e))
+            res = []
+            terms = [e.left] + list(e.comparators)
+            for l, op, r in zip(terms, e.ops, terms[1:]):
+                res.append(self.compare(ast.Compare(left=l, ops=[op], comparators=[r]), st))
+            if any(r is False for r in res):
+                return False
+            return None if any(r is None for r in res) else True
         a, b = self.ev(e.left, st), self.ev(e.comparators[0], st)
         op = e.ops[0]
         if isinstance(op, (ast.In, ast.NotIn)) and isinstance(b, tuple) and all(isinstance(x, int) for x in b) and isinstance(a, int):
@@ -275,6 +364,12 @@ class Interp:
             for o in outs:
                 yield from self.run((s.body if o else s.orelse) + rest, st)
             return
+        if isinstance(s, ast.Assert):
+            t = self.ev(s.test, st)
+            if t is False:
+                raise AnalysisError("C20 interpreter: assertion %s fails on an abstract input" % norm(s.test))
+            yield from self.run(rest, st)
+            return
         if isinstance(s, ast.Return):
             st = dict(st)
             st["<return>"] = self.ev(s.value, st)
@@ -334,6 +429,7 @@ def run(ctx):
     n_paths = 0
     bad = {}
     samples = []
+    helpers_seen = set()
     lx_range = [ZERO] + list(range(-24, 9))
     for Lx in lx_range:
         le_range = range(-24, 9) if Lx == ZERO else range(max(-30, Lx - 12), min(12, Lx + 12) + 1)
@@ -345,10 +441,14 @@ def run(ctx):
                     continue
                 bits = {("c6", "x"): c6x, ("c1", "x"): c6x, ("c6", "err"): c6e, ("c1", "err"): c1e, "lt": lt}
                 n_states += 1
-                it = Interp(fn, bits)
+                it = Interp(fn, bits, ctx.prog)
                 st0 = {"x": F(Lx, 0, "x"), "err": F(Le, 0, "err")}
                 for st in it.run(body, st0):
                     n_paths += 1
+                    for h in getattr(it, "helpers", ()):
+                        if h not in helpers_seen:
+                            helpers_seen.add(h)
+                            ctx.touch(ctx.prog.func(h))
                     parts = flatten(st["<return>"])
                     kinds = [p[0] for p in parts]
                     desc = "L(x)=%s L(err)=%s carries(x6=%d,err6=%d,err1=%d) tie=%d" % (Lx, Le, c6x, c6e, c1e, lt)
